@@ -12,13 +12,13 @@ import (
 	"sync"
 	"time"
 
+	eth2client "github.com/attestantio/go-eth2-client"
 	"github.com/attestantio/go-eth2-client/api"
 	apiv1 "github.com/attestantio/go-eth2-client/api/v1"
 	"github.com/attestantio/go-eth2-client/spec"
 	"github.com/attestantio/go-eth2-client/spec/altair"
 	"github.com/attestantio/go-eth2-client/spec/capella"
 	"github.com/attestantio/go-eth2-client/spec/phase0"
-	eth2client "github.com/attestantio/go-eth2-client"
 	nullmetrics "github.com/attestantio/vouch/services/metrics/null"
 	"github.com/attestantio/vouch/services/submitter/immediate"
 	"github.com/attestantio/vouch/services/submitter/multinode"
@@ -198,6 +198,7 @@ type fcase struct {
 	Size        int      `json:"payload_size"`
 	Concurrency int64    `json:"process_concurrency"`
 	Immediate   bool     `json:"immediate_submitter,omitempty"`
+	Repeat      int      `json:"sequential_submissions_on_one_service,omitempty"`
 }
 
 func runCase(c *harness.Ctx, id string, fc fcase, atoms []atom) {
@@ -331,54 +332,60 @@ func runCase(c *harness.Ctx, id string, fc fcase, atoms []atom) {
 		}
 	}
 
-	start := time.Now()
-	done := make(chan error, 1)
-	go func() { done <- submit() }()
-	var err error
-	returned := true
-	select {
-	case err = <-done:
-	case <-time.After(10 * time.Second):
-		returned = false
+	repeat := fc.Repeat
+	if repeat < 1 {
+		repeat = 1
 	}
-	took := time.Since(start)
-	detail := map[string]any{"case": fc, "returned_error": fmt.Sprint(err), "took_ms": took.Milliseconds(), "timeout_ms": timeout.Milliseconds()}
-	if !returned {
-		c.Violate("submission-never-returns:"+fc.Kind, "submission did not return within 10 s (timeout 0.6 s)", id, detail)
-		return
-	}
-	// expected result
-	expectOK := false
-	for _, a := range atoms {
-		inTime := !a.Hang && a.Delay < timeout
-		if a.Accepts && inTime {
-			expectOK = true
+	for rep := 0; rep < repeat; rep++ {
+		start := time.Now()
+		done := make(chan error, 1)
+		go func() { done <- submit() }()
+		var err error
+		returned := true
+		select {
+		case err = <-done:
+		case <-time.After(10 * time.Second):
+			returned = false
 		}
-	}
-	if fc.Immediate {
-		a := atoms[0]
-		if a.Err == "" {
-			if err != nil {
-				c.Violate("immediate-accepted-but-error:"+fc.Kind, "the only node accepted but the submission failed: "+err.Error(), id, detail)
+		took := time.Since(start)
+		detail := map[string]any{"case": fc, "submission_no": rep, "returned_error": fmt.Sprint(err), "took_ms": took.Milliseconds(), "timeout_ms": timeout.Milliseconds()}
+		if !returned {
+			c.Violate("submission-never-returns:"+fc.Kind, "submission did not return within 10 s (timeout 0.6 s)", id, detail)
+			return
+		}
+		// expected result
+		expectOK := false
+		for _, a := range atoms {
+			inTime := !a.Hang && a.Delay < timeout
+			if a.Accepts && inTime {
+				expectOK = true
 			}
-		} else if !a.Accepts && err == nil {
-			c.Violate("immediate-rejected-but-success:"+fc.Kind, "the only node rejected but the submission succeeded", id, detail)
 		}
-	} else {
-		if expectOK && err != nil {
-			c.Violate("accepted-but-failure:"+fc.Kind, "a node accepted (or rejected only for a tolerated reason) in time but the submission failed: "+err.Error(), id, detail)
-		}
-		if !expectOK && err == nil {
-			cls := ""
-			for _, a := range atoms {
-				if strings.HasPrefix(a.Name, "malformed") {
-					cls = ":" + strings.Split(a.Name, ":")[0]
+		if fc.Immediate {
+			a := atoms[0]
+			if a.Err == "" {
+				if err != nil {
+					c.Violate("immediate-accepted-but-error:"+fc.Kind, "the only node accepted but the submission failed: "+err.Error(), id, detail)
 				}
+			} else if !a.Accepts && err == nil {
+				c.Violate("immediate-rejected-but-success:"+fc.Kind, "the only node rejected but the submission succeeded", id, detail)
 			}
-			c.Violate("no-acceptance-but-success:"+fc.Kind+cls, "no node accepted in time, yet the submission reported success", id, detail)
-		}
-		if took > timeout+slack {
-			c.Violate("returned-after-timeout:"+fc.Kind, fmt.Sprintf("returned after %v, timeout is %v", took, timeout), id, detail)
+		} else {
+			if expectOK && err != nil {
+				c.Violate("accepted-but-failure:"+fc.Kind, "a node accepted (or rejected only for a tolerated reason) in time but the submission failed: "+err.Error(), id, detail)
+			}
+			if !expectOK && err == nil {
+				cls := ""
+				for _, a := range atoms {
+					if strings.HasPrefix(a.Name, "malformed") {
+						cls = ":" + strings.Split(a.Name, ":")[0]
+					}
+				}
+				c.Violate("no-acceptance-but-success:"+fc.Kind+cls, "no node accepted in time, yet the submission reported success", id, detail)
+			}
+			if took > timeout+slack {
+				c.Violate("returned-after-timeout:"+fc.Kind, fmt.Sprintf("returned after %v, timeout is %v", took, timeout), id, detail)
+			}
 		}
 	}
 	// delivery: every node received every item exactly once (wait for stragglers behind slow nodes)
@@ -387,7 +394,7 @@ func runCase(c *harness.Ctx, id string, fc fcase, atoms []atom) {
 		complete := true
 		for _, nd := range nodes {
 			nd.mu.Lock()
-			if len(nd.items) < len(payload) {
+			if len(nd.items) < len(payload)*repeat {
 				complete = false
 			}
 			nd.mu.Unlock()
@@ -403,15 +410,16 @@ func runCase(c *harness.Ctx, id string, fc fcase, atoms []atom) {
 		calls := nd.calls
 		nd.mu.Unlock()
 		sort.Ints(items)
-		ok := len(items) == len(payload)
+		ok := len(items) == len(payload)*repeat
 		for k := 0; ok && k < len(items); k++ {
-			ok = items[k] == k
+			ok = items[k] == k/repeat
 		}
 		if !ok {
+			detail := map[string]any{"case": fc}
 			detail["node"] = i
 			detail["received_items"] = fmt.Sprint(items)
 			detail["calls"] = calls
-			what := fmt.Sprintf("node %d (%s) received %d of %d payload items (each exactly once expected)", i, atoms[i].Name, len(items), len(payload))
+			what := fmt.Sprintf("node %d (%s) received %d of %d payload items (each exactly once per submission expected)", i, atoms[i].Name, len(items), len(payload)*repeat)
 			c.Violate("delivery-incomplete:"+fc.Kind, what, id, detail)
 		}
 		c.Count("node_deliveries_checked", 1)
@@ -458,6 +466,18 @@ func run(c *harness.Ctx) {
 			}
 		}
 	}
+	// histories: several submissions on one service instance while one node hangs (its goroutines outlive the calls)
+	for _, kind := range kinds {
+		hang := atom{Name: "hang", Client: "lodestar", Hang: true, Accepts: true}
+		acc := atom{Name: "accept", Client: "teku", Accepts: true}
+		for _, nodesSet := range [][]atom{{hang, acc}, {hang, hang, acc}, {acc, rej, hang}} {
+			add(kind, nodesSet, false)
+			cs := &cases[len(cases)-1]
+			cs.fc.Repeat = 6
+			cs.fc.Concurrency = int64(len(nodesSet))
+			cs.id = "history/" + cs.id
+		}
+	}
 	if !c.Quick() {
 		// random 4-6 node assignments
 		for i := 0; i < 6000; i++ {
@@ -499,14 +519,14 @@ func run(c *harness.Ctx) {
 
 func main() {
 	harness.Main(&harness.Spec{
-		Property: "C08",
-		Level:    "fault_enumeration",
-		Rule:     "enumerated fault matrix: for each of the 8 submission kinds every single and every ordered pair of node behaviours on 3 nodes (third node rejects), behaviours = accept, accept slowly inside/outside the timeout, hang ignoring the context, plain/JSON rejections, client-specific tolerated rejections and the same strings from the wrong client, and malformed error bodies (empty/missing/null/ill-typed/truncated failures) for sync messages and contributions; each behaviour also against the immediate submitter; payload sizes 1-64 with process concurrency >= nodes (chunked delivery); thorough adds random 4-6 node assignments. distinct = (kind, behaviour assignment)",
-		Batches:  func(string) int { return 4 },
-		Parallel: 4,
-		Run:      run,
-		MinDistinct: 100,
+		Property:     "C08",
+		Level:        "fault_enumeration",
+		Rule:         "enumerated fault matrix: for each of the 8 submission kinds every single and every ordered pair of node behaviours on 3 nodes (third node rejects), behaviours = accept, accept slowly inside/outside the timeout, hang ignoring the context, plain/JSON rejections, client-specific tolerated rejections and the same strings from the wrong client, and malformed error bodies (empty/missing/null/ill-typed/truncated failures) for sync messages and contributions; each behaviour also against the immediate submitter; payload sizes 1-64 with process concurrency >= nodes (chunked delivery); thorough adds random 4-6 node assignments. distinct = (kind, behaviour assignment)",
+		Batches:      func(string) int { return 4 },
+		Parallel:     4,
+		Run:          run,
+		MinDistinct:  100,
 		ChildTimeout: func(tier string) time.Duration { return 30 * time.Minute },
-		Assumptions: []string{"timeout 0.6 s; scripted latencies 0, 0.15 s, 1.0 s, hang 1.4 s: every latency is >= 400 ms away from the deadline; the only upper bound checked is return <= timeout + 0.7 s", "process concurrency >= number of nodes (the statement's proviso)", "within one node all chunks behave alike"},
+		Assumptions:  []string{"timeout 0.6 s; scripted latencies 0, 0.15 s, 1.0 s, hang 1.4 s: every latency is >= 400 ms away from the deadline; the only upper bound checked is return <= timeout + 0.7 s", "process concurrency >= number of nodes (the statement's proviso)", "within one node all chunks behave alike"},
 	})
 }
